@@ -72,11 +72,6 @@ class Report:
 
     def refuted(self, rule: str, fi, node, reason: str, construct: Optional[str] = None, failing_input: str = None):
         """A definite refutation: the construct breaks the law for some input in the quantifier."""
-        if rule in getattr(self, "soft_rules", ()):
-            # a reader of statement shapes disagrees with the rule that evaluated the code itself and found the behaviour
-            # right on everything it explored: the reader met a shape it mis-reads — recorded, not reported
-            self.notes.append(f"{rule} (shape reader, overruled by the semantic rule of this check): {reason}"[:300])
-            return
         ctext = construct if construct is not None else (norm_text(node) if isinstance(node, ast.AST) else str(node))
         fn = fi.qualname if isinstance(fi, FunctionInfo) else (fi or "")
         key = (rule, fn, ctext)
